@@ -1,0 +1,206 @@
+// Copyright (C) 2026 Storj Labs, Inc.
+// See LICENSE for copying information.
+
+//go:build verif
+
+package drpcwire
+
+// Machine-checked contracts for this package (read by /verif/govc; comment-only, compiled only
+// with the verif build tag). Clauses are keyed by function name and loop ordinal.
+
+// ---- varint wire spec: 7-bit little-endian groups, high bit = continuation, at most 10 bytes,
+// ---- value truncated to 64 bits.
+
+//@ spec vN(b []byte, k int) int = ite(k >= 10, 11, ite(len(b) <= k, 0, ite(b[k] < 128, k+1, vN(b, k+1))))
+//@ spec vVal(b []byte, k int) uint64 = ite(k >= 10 || len(b) <= k, 0,
+//@      ((uint64(b[k]) & 127) << (7*k)) + ite(b[k] < 128, 0, vVal(b, k+1)))
+// encoder side, written in the shape "emit low 7 bits, shift right by 7" so that it reads the same
+// in both arithmetic modes (k is always a literal; the recursion unfolds at translation time)
+//@ spec vEncLenK(x uint64, k int) int = ite(k >= 9 || x < 128, k+1, vEncLenK(x >> 7, k+1))
+//@ spec vEncByteK(x uint64, k int) byte = ite(k <= 0, byte(x & 127) + ite(x >= 128, 128, 0), vEncByteK(x >> 7, k-1))
+// vEncLen(x): number of bytes of the encoding of x; vEncByte(x,k): its k-th byte. Opaque: callers
+// that only move encoded bytes around see them as uninterpreted functions; the functions that
+// produce or consume the bits reveal the definitions.
+//@ opaque spec vEncLen(x uint64) int = vEncLenK(x, 0)
+//@ opaque spec vEncByte(x uint64, k int) byte = ite(k <= 0, vEncByteK(x, 0), ite(k == 1, vEncByteK(x, 1),
+//@      ite(k == 2, vEncByteK(x, 2), ite(k == 3, vEncByteK(x, 3), ite(k == 4, vEncByteK(x, 4), ite(k == 5, vEncByteK(x, 5),
+//@      ite(k == 6, vEncByteK(x, 6), ite(k == 7, vEncByteK(x, 7), ite(k == 8, vEncByteK(x, 8), vEncByteK(x, 9))))))))))
+//@ spec vEncAt(s []byte, base int, x uint64, n int) bool = forall k int :: 0 <= k && k < n ==> s[base+k] == vEncByte(x, k)
+
+//@ spec vAdv(b []byte) int = ite(vN(b, 0) == 11, 10, vN(b, 0))
+//@ spec vOK(b []byte) bool = 1 <= vN(b, 0) && vN(b, 0) <= 10
+
+// Total functional contract: the four results are functions of the input bytes. (On the
+// "too long" path the code returns the slice advanced by the ten bytes it looked at.)
+//@ func ReadVarint
+//@   mode bv
+//@   props C08 C13 C18
+//@   unroll 1 10
+//@   ensures [rem] rem == ite(vN(buf, 0) == 0, buf, buf[vAdv(buf):])
+//@   ensures [out] out == ite(vOK(buf), vVal(buf, 0), 0)
+//@   ensures [ok]  ok == vOK(buf)
+//@   ensures [err] (err != nil) == (vN(buf, 0) == 11)
+
+//@ func AppendVarint
+//@   mode int
+//@   props C08 C18
+//@   unroll 1 10
+//@   modifies mem(buf[len(buf):cap(buf)])
+//@   reveal vEncLen, vEncByte
+//@   let n = vEncLen(x)
+//@   ensures [nrange]  1 <= n && n <= 10
+//@   ensures [len]     len(result) == len(buf) + n
+//@   ensures [prefix]  forall i int :: 0 <= i && i < len(buf) ==> result[i] == old(buf[i])
+//@   ensures [enc]     vEncAt(result, len(buf), x, n)
+//@   ensures [inplace] len(buf) + n <= cap(buf) ==> arr(result) == arr(buf) && off(result) == off(buf) && cap(result) == cap(buf)
+//@   ensures [fresh]   len(buf) + n > cap(buf) ==> fresh(result)
+
+// ---- frame wire spec (README "wire format"): control byte = control<<7 | kind<<1 | done, then
+// ---- varint stream id, varint message id, varint data length, data.
+// pfStatus: 0 = a whole frame is present, 1 = need more data, 2 = malformed.
+
+//@ spec pfB1(b []byte) []byte = b[1:]
+//@ spec pfB2(b []byte) []byte = pfB1(b)[vAdv(pfB1(b)):]
+//@ spec pfB3(b []byte) []byte = pfB2(b)[vAdv(pfB2(b)):]
+//@ spec pfN1(b []byte) int = vN(pfB1(b), 0)
+//@ spec pfN2(b []byte) int = vN(pfB2(b), 0)
+//@ spec pfN3(b []byte) int = vN(pfB3(b), 0)
+//@ spec pfHdr(b []byte) int = 1 + vAdv(pfB1(b)) + vAdv(pfB2(b)) + vAdv(pfB3(b))
+//@ spec pfStream(b []byte) uint64 = vVal(pfB1(b), 0)
+//@ spec pfMessage(b []byte) uint64 = vVal(pfB2(b), 0)
+//@ spec pfDataLen(b []byte) uint64 = vVal(pfB3(b), 0)
+//@ spec pfStatus(b []byte) int = ite(len(b) < 4, 1,
+//@      ite(pfN1(b) == 11, 2, ite(pfN1(b) == 0, 1,
+//@      ite(pfN2(b) == 11, 2, ite(pfN2(b) == 0, 1,
+//@      ite(pfN3(b) == 11, 2, ite(pfN3(b) == 0, 1,
+//@      ite(pfDataLen(b) > uint64(len(b) - pfHdr(b)), 1, 0))))))))
+
+//@ func ParseFrame
+//@   mode int
+//@   props C08 C09 C13 C18
+//@   let st = pfStatus(buf)
+//@   let h = pfHdr(buf)
+//@   let dl = int(pfDataLen(buf))
+//@   ensures [short] st == 1 ==> !ok && err == nil && rem == buf
+//@   ensures [error] st == 2 ==> !ok && err != nil && rem == buf
+//@   ensures [ok]    st == 0 ==> ok && err == nil
+//@   ensures [flags] st == 0 ==> fr.Kind == Kind((buf[0] & 126) >> 1) && fr.Done == ((buf[0] & 1) != 0) && fr.Control == ((buf[0] & 128) != 0)
+//@   ensures [ids]   st == 0 ==> fr.ID.Stream == pfStream(buf) && fr.ID.Message == pfMessage(buf)
+//@   ensures [data]  st == 0 ==> arr(fr.Data) == arr(buf) && off(fr.Data) == off(buf) + h && len(fr.Data) == dl && cap(fr.Data) == cap(buf) - h
+//@   ensures [rem]   st == 0 ==> arr(rem) == arr(buf) && off(rem) == off(buf) + h + dl && len(rem) == len(buf) - h - dl && cap(rem) == cap(buf) - h - dl
+
+//@ func AppendFrame
+//@   mode int
+//@   props C08 C18
+//@   modifies memcap(buf)
+//@   let n1 = vEncLen(fr.ID.Stream)
+//@   let n2 = vEncLen(fr.ID.Message)
+//@   let n3 = vEncLen(uint64(len(fr.Data)))
+//@   let h = 1 + n1 + n2 + n3
+//@   ensures [len]     len(result) == len(buf) + h + len(fr.Data)
+//@   ensures [prefix]  forall i int :: 0 <= i && i < len(buf) ==> result[i] == old(buf[i])
+//@   ensures [ctrl]    fr.Kind < 64 ==> result[len(buf)] == byte(fr.Kind) * 2 + ite(fr.Done, 1, 0) + ite(fr.Control, 128, 0)
+//@   ensures [stream]  vEncAt(result, len(buf) + 1, fr.ID.Stream, n1)
+//@   ensures [message] vEncAt(result, len(buf) + 1 + n1, fr.ID.Message, n2)
+//@   ensures [dlen]    vEncAt(result, len(buf) + 1 + n1 + n2, uint64(len(fr.Data)), n3)
+//@   ensures [data]    arr(fr.Data) != arr(buf) ==> forall i int :: 0 <= i && i < len(fr.Data) ==> result[len(buf) + h + i] == old(fr.Data[i])
+//@   ensures [inplace] len(buf) + h + len(fr.Data) <= cap(buf) ==> arr(result) == arr(buf) && off(result) == off(buf) && cap(result) == cap(buf)
+//@   ensures [fresh]   len(buf) + h + len(fr.Data) > cap(buf) ==> fresh(result)
+
+//@ func (ID).Less
+//@   mode int
+//@   props C08 C09
+//@   ensures [lex] result == (i.Stream < j.Stream || (i.Stream == j.Stream && i.Message < j.Message))
+
+//@ func SplitData
+//@   mode int
+//@   props C08 C01
+//@   let m = ite(n == 0, 65536, ite(n < 0, 0, n))
+//@   ensures [split] len(buf) > m && m > 0 ==> prefix == buf[:m] && suffix == buf[m:]
+//@   ensures [whole] !(len(buf) > m && m > 0) ==> prefix == buf && suffix == nil
+
+// SplitN: the frames handed to the callback tile pkt.Data in order without gaps or overlap (they
+// alias it), carry the packet's id/kind/control, and exactly the last one is marked done.
+//@ func SplitN
+//@   mode int
+//@   props C08 C01 C07 C18
+//@   let m = ite(n == 0, 65536, ite(n < 0, 0, n))
+//@   ghost entry emitted = 0
+//@   ghost entry frames = 0
+//@   site cb assert [frame-id]   arg0.ID == pkt0.ID && arg0.Kind == pkt0.Kind && arg0.Control == pkt0.Control
+//@   site cb assert [frame-data] arr(arg0.Data) == arr(pkt0.Data) && off(arg0.Data) == off(pkt0.Data) + emitted && 0 <= len(arg0.Data)
+//@   site cb assert [frame-size] m > 0 ==> len(arg0.Data) <= m
+//@   site cb assert [frame-nonempty] frames > 0 ==> len(arg0.Data) > 0
+//@   site cb assert [frame-done] arg0.Done == (emitted + len(arg0.Data) == len(pkt0.Data))
+//@   ghost after:cb emitted = emitted + len(arg0.Data)
+//@   ghost after:cb frames = frames + 1
+//@   loop 1 invariant [tile] arr(pkt.Data) == arr(pkt0.Data) && off(pkt.Data) == off(pkt0.Data) + emitted && len(pkt.Data) == len(pkt0.Data) - emitted
+//@   loop 1 invariant [range] 0 <= emitted && emitted <= len(pkt0.Data) && 0 <= frames && (frames > 0 ==> len(pkt.Data) > 0)
+//@   loop 1 invariant [hdr] pkt.ID == pkt0.ID && pkt.Kind == pkt0.Kind && pkt.Control == pkt0.Control && n == n0
+//@   loop 1 decreases len(pkt.Data) + ite(frames == 0, 1, 0)
+//@   ensures [all] result == nil ==> emitted == len(pkt.Data) && frames >= 1
+
+// ---- lemmas over the spec functions (no code involved): round trips and prefix stability
+
+//@ spec vEncAtK(s []byte, base int, x uint64, n int, k int) bool =
+//@      k >= 10 || k >= n || (s[base+k] == vEncByte(x, k) && vEncAtK(s, base, x, n, k+1))
+
+// Decoding the encoding of x yields x and consumes exactly its bytes, for every 64-bit x (QF_BV).
+//@ lemma L.varintRT(s []byte, x uint64)
+//@   mode bv
+//@   props C08 C18
+//@   reveal vEncLen, vEncByte
+//@   requires len(s) >= vEncLen(x) && vEncAtK(s, 0, x, vEncLen(x), 0)
+//@   ensures [n]   vN(s, 0) == vEncLen(x)
+//@   ensures [val] vVal(s, 0) == x
+//@   ensures [len] 1 <= vEncLen(x) && vEncLen(x) <= 10
+
+// The quantified form used by the encoder contracts implies the unrolled form used above.
+//@ lemma L.encAtUnroll(s []byte, base int, x uint64, n int)
+//@   mode int
+//@   props C08 C18
+//@   requires vEncAt(s, base, x, n) && base >= 0
+//@   ensures [unroll] vEncAtK(s, base, x, n, 0)
+
+// Frame round trip: bytes laid out as AppendFrame's postcondition says parse back to the same frame
+// (any 6-bit kind, any ids, both flags, any payload) and consume exactly the encoded bytes.
+//@ lemma L.frameRT(s []byte, fr Frame)
+//@   mode int
+//@   props C08 C18
+//@   let n1 = vEncLen(fr.ID.Stream)
+//@   let n2 = vEncLen(fr.ID.Message)
+//@   let n3 = vEncLen(uint64(len(fr.Data)))
+//@   let h = 1 + n1 + n2 + n3
+//@   reveal vEncLen
+//@   requires fr.Kind < 64 && len(s) >= h + len(fr.Data)
+//@   requires s[0] == byte(fr.Kind) * 2 + ite(fr.Done, 1, 0) + ite(fr.Control, 128, 0)
+//@   requires vEncAt(s, 1, fr.ID.Stream, n1) && vEncAt(s, 1 + n1, fr.ID.Message, n2) && vEncAt(s, 1 + n1 + n2, uint64(len(fr.Data)), n3)
+//@   use L.encAtUnroll(s, 1, fr.ID.Stream, n1)
+//@   use L.encAtUnroll(s, 1 + n1, fr.ID.Message, n2)
+//@   use L.encAtUnroll(s, 1 + n1 + n2, uint64(len(fr.Data)), n3)
+//@   use L.varintRT(s[1:], fr.ID.Stream)
+//@   use L.varintRT(s[1+n1:], fr.ID.Message)
+//@   use L.varintRT(s[1+n1+n2:], uint64(len(fr.Data)))
+//@   ensures [status] pfStatus(s) == 0
+//@   ensures [hdr]    pfHdr(s) == h && int(pfDataLen(s)) == len(fr.Data)
+//@   ensures [ids]    pfStream(s) == fr.ID.Stream && pfMessage(s) == fr.ID.Message
+//@   ensures [flags]  Kind((s[0] & 126) >> 1) == fr.Kind && ((s[0] & 1) != 0) == fr.Done && ((s[0] & 128) != 0) == fr.Control
+
+// Prefix stability of one varint: a decided answer (value or "too long") survives any extension.
+//@ lemma L.vprefix(s []byte, t []byte)
+//@   mode int
+//@   props C08 C09
+//@   ensures [n]   arr(t) == arr(s) && off(t) == off(s) && len(t) >= len(s) && vN(s, 0) != 0 ==>
+//@                 vN(t, 0) == vN(s, 0) && vVal(t, 0) == vVal(s, 0) && vAdv(t) == vAdv(s)
+
+// Prefix stability: once the parser's answer on a buffer is "frame" or "malformed", appending more
+// bytes never changes it; "need more" is therefore only ever said about proper prefixes.
+//@ lemma L.prefix(s []byte, t []byte)
+//@   mode int
+//@   props C08 C09
+//@   requires arr(t) == arr(s) && off(t) == off(s) && len(t) >= len(s) && len(s) >= 4
+//@   use L.vprefix(pfB1(s), pfB1(t))
+//@   use L.vprefix(pfB2(s), pfB2(t))
+//@   use L.vprefix(pfB3(s), pfB3(t))
+//@   ensures [ok]  pfStatus(s) == 0 ==> pfStatus(t) == 0 && pfHdr(t) == pfHdr(s) && pfDataLen(t) == pfDataLen(s) && pfStream(t) == pfStream(s) && pfMessage(t) == pfMessage(s)
+//@   ensures [bad] pfStatus(s) == 2 ==> pfStatus(t) == 2
